@@ -76,7 +76,16 @@ def check(ctx):
         rng.shuffle(ks)
         for k in ks[: (12 if thorough else 5)]:
             items.append((progs[k]["p"], "M%d" % len(items), 0))
-    files = {"a.go": gogen.render_file("pk", funcs), "b.go": minigo.render_file("pk", items)}
+    # string-literal families: short / long / multi-byte literals at every alignment, several per function
+    lits = ['package pk\n\nimport "strings"\n\n']
+    nlit = 0
+    for pad in range(0, 8):
+        for body, rep in (("\u00e9\u00df", 90), ("\u6f22\u5b57x", 70), ("ab", 3), ("Z9$k#", 400)):
+            lit1 = "x" * pad + body * rep
+            lits.append('func S%d(a string) bool {\n\treturn strings.Contains(a, %s) || a == %s || strings.HasPrefix(a, %s)\n}\n\n'
+                        % (nlit, json.dumps(lit1, ensure_ascii=False), json.dumps("marker-%d" % nlit), json.dumps("/etc/cfg%d" % pad)))
+            nlit += 1
+    files = {"a.go": gogen.render_file("pk", funcs), "b.go": minigo.render_file("pk", items), "c.go": "".join(lits)}
     v0 = os.path.join(base, "v0")
     gogen.write_module(os.path.join(v0, "pk"), "pk", files, module="example.com/c05/pk")
     variants = [("v0", v0, {})]
@@ -109,7 +118,7 @@ def check(ctx):
             raise vlib.Inconclusive("sfw index failed (%s): %s" % (be, (out + err)[-800:]))
         doc = json.loads(out[out.index("{"):])
         sigs = [{"id": s["id"], "fn": s["name"][len("idx_"):], "hash": s["topology_hash"]} for s in doc["indexed"]]
-        if len(sigs) < len(funcs) + len(items):
+        if len(sigs) < len(funcs) + len(items) + nlit:
             raise vlib.Inconclusive("sfw index indexed only %d functions of %d" % (len(sigs), len(funcs) + len(items)))
         indexed[be] = sigs
         evs.append({"ev": "index", "db": be, "backend": be, "sigs": sigs})
@@ -184,6 +193,8 @@ def check(ctx):
                 kind = "noalert" if not al else ("othersig" if not [a for a in al if a["sig"] == s["id"]] else "lowconf")
                 fam = re.sub(r"\d+", "#", f["origin"])
                 shape = ""
+                if f["origin"].startswith("S"):
+                    fam = "strlits"
                 m = re.match(r"G\d+_(\d+)", f["origin"].split(".")[-1].split("$")[0])
                 if m:
                     shape = gogen.SHAPES[int(m.group(1))]
@@ -195,9 +206,10 @@ def check(ctx):
             e, f, al, s = classes[sig][0]
             replay = ctx.save_replay("scan_%s" % vlib.digest([sig, f["origin"]]),
                                      {"event.json": {k: e[k] for k in e if k not in ("fns", "by")}, "function.json": f, "signature.json": s,
-                                      "indexed_a.go": files["a.go"], "indexed_b.go": files["b.go"],
+                                      "indexed_a.go": files["a.go"], "indexed_b.go": files["b.go"], "indexed_c.go": files["c.go"],
                                       "scanned_a.go": open(os.path.join(e["dir"], "pk", "a.go")).read(),
-                                      "scanned_b.go": open(os.path.join(e["dir"], "pk", "b.go")).read()})
+                                      "scanned_b.go": open(os.path.join(e["dir"], "pk", "b.go")).read(),
+                                      "scanned_c.go": open(os.path.join(e["dir"], "pk", "c.go")).read()})
             ctx.violation(sig, "%s: function %s (indexed as %s, signature %s) scanned in variant %s with backend=%s mode=%s threshold=%s: "
                           "alerts for it: %s (%d occurrences in this class)"
                           % (sig, f["name"], f["origin"], s["id"], e["variant"], e["backend"], e["mode"], e["theta"],
